@@ -13,7 +13,7 @@
 (* printed as JSON when the trace is exhausted.  The driver maps monitor   *)
 (* names to properties (DESIGN.md section 7).                              *)
 (***************************************************************************)
-EXTENDS Format, Diff, Json, IOUtils, TLC
+EXTENDS Monitors, Diff, Json, IOUtils, TLC
 
 Rec == ndJsonDeserialize(IOEnv.TRACE)
 
@@ -49,24 +49,6 @@ InitG == [scen |-> "", mode |-> "clean", src |-> <<>>, snap |-> <<>>, partial |-
 
 V(mon, detail) == {<<g.scen, mon, l, ToString(detail)>>}
 If(c, S) == IF c THEN S ELSE {}
-
-(***************************************************************************)
-(* State monitors.                                                         *)
-(***************************************************************************)
-\* every complete version made in this trace restores to the tree it was made from
-SnapBroken(f, snap, partial) ==
-    {b \in (DOMAIN snap) \ partial : Complete(f, b) /\ RestoreOf(f, b) # snap[b]}
-
-\* every file entry recorded in a band made in this trace restores to the bytes
-\* that file had in the source when the band was made
-RecordedWrong(f, snap) ==
-    UNION { { <<b, e.p>> : e \in {x \in SeqRange(OwnEntries(f, b)) :
-                  x.k = "File" /\
-                  ~( /\ x.p \in DOMAIN snap[b]
-                     /\ snap[b][x.p].k = "File"
-                     /\ EntryReadable(f, x)
-                     /\ FileBytes(f, x) = snap[b][x.p].c )} }
-            : b \in (DOMAIN snap) \cap Bands(f) }
 
 \* `partial` = versions written under injected storage faults: they may lack entries (with an
 \* error reported), so they are held to RecordedBytes and NoDangling but not to their snapshot
